@@ -56,8 +56,11 @@ impl PolynomialTraits for IntermediatePolynomial {
                 variables: self.variables.clone(),
             });
         }
-        let evaluated =
-            eval_intermediate_polynomial(&self.terms, &[(self.variables[0].clone(), point)])?;
+        // A constant polynomial has no variable to bind
+        let evaluated = match self.variables.first() {
+            Some(var) => eval_intermediate_polynomial(&self.terms, &[(var.clone(), point)])?,
+            None => eval_intermediate_polynomial(&self.terms, &Vec::<(String, F)>::new())?,
+        };
         Ok(evaluated)
     }
 
@@ -77,8 +80,14 @@ impl PolynomialTraits for IntermediatePolynomial {
                 variables: self.variables.clone(),
             });
         }
+        // A constant polynomial differentiates to the zero polynomial
+        let var = if self.variables.is_empty() {
+            "x"
+        } else {
+            &self.variables[0]
+        };
         Ok(Self {
-            terms: partial_derivative(&self.terms, &self.variables[0]).terms,
+            terms: partial_derivative(&self.terms, var).terms,
             variables: self.variables.clone(),
         })
     }
